@@ -125,8 +125,13 @@ class Ctx:
         opened, _fixed = load_known()
         opened = opened.get(self.prop, {})
         real = []
-        os.makedirs(os.path.join(VERIF, "reports"), exist_ok=True)
-        os.makedirs(os.path.join(VERIF, "evidence"), exist_ok=True)
+        # runs against a scratch copy (ESPADA_REPO, dev-time checker validation) must not overwrite the
+        # evidence / reports of /repo
+        scratch = F.REPO != "/repo"
+        ev_dir = os.path.join(VERIF, "build", "scratch-evidence") if scratch else os.path.join(VERIF, "evidence")
+        rep_dir = os.path.join(VERIF, "build", "scratch-reports") if scratch else os.path.join(VERIF, "reports")
+        os.makedirs(rep_dir, exist_ok=True)
+        os.makedirs(ev_dir, exist_ok=True)
         lines = []
         seen_keys = set()
         for v in self.violations:
@@ -141,7 +146,7 @@ class Ctx:
             real.append(v)
         for v in real:
             h = hashlib.sha1(v["key"].encode()).hexdigest()[:10]
-            rel = os.path.join("reports", f"{self.prop}-{h}.json")
+            rel = os.path.join(os.path.relpath(rep_dir, VERIF), f"{self.prop}-{h}.json")
             with open(os.path.join(VERIF, rel), "w") as fh:
                 json.dump(v, fh, indent=1)
             loc = f"{v.get('file') or ''}:{v.get('line') or ''}"
@@ -187,7 +192,7 @@ class Ctx:
             "wall_s": round(wall, 3),
             "violations": len(real),
         }
-        with open(os.path.join(VERIF, "evidence", f"{self.prop}.json"), "w") as fh:
+        with open(os.path.join(ev_dir, f"{self.prop}.json"), "w") as fh:
             json.dump(ev, fh, indent=1)
         print(f"[{self.prop}] tier={self.tier} obligations={self.obligations} discharged={self.discharged} "
               f"violations={len(real)} wall={wall:.1f}s")
